@@ -16,7 +16,7 @@ Streams (all counts in the evidence are measured):
 import os, re, json
 
 from .. import formats as FM
-from ..core import Violation, VERIF
+from ..core import Violation, VERIF, modules_for
 
 WHITELIST = {0x01, 0x13, 0x02, 0x03}            # WAV WAVEX AIFF AU (MPEG, FLAC are not compiled in)
 PIPE_MAJORS = {0x01, 0x02, 0x03}                # the statement: WAV, AIFF, AU with sample-granular encodings
@@ -793,7 +793,7 @@ def run(ctx):
         return ctx.replay_script(ctx.replay)
     quick = ctx.tier == "quick"
     ctx.run_regressions()
-    failed = ctx.lean_stage(["SfProps.C14", "SfProps.C14Api"])
+    failed = ctx.lean_stage(modules_for("C14"))
 
     p = ctx.run_sfh(["routes"], "consts\n")
     m = re.search(r"consts (.*)", p.stdout)
